@@ -272,24 +272,52 @@ def wfPat (bits : Nat) (inArg : Bool) : Pat → Bool
       | none => true
       | some (f, _) => f.all (wfLit true)) && wfSpec bits spec
   | .mdc _ key dflt spec =>
-    !key.isEmpty && key.all (wfLit true) &&
+    key.all (wfLit true) &&
     (match dflt with
       | none => true
-      | some d => !d.isEmpty && d.all (wfLit true)) && wfSpec bits spec
+      | some d => d.all (wfLit true)) && wfSpec bits spec
   | .group _ _ body spec => wfPats bits true body && wfSpec bits spec
 def wfPats (bits : Nat) (inArg : Bool) : List Pat → Bool
   | [] => true
   | p :: ps => wfPat bits inArg p && wfPats bits inArg ps
 end
 
+mutual
+/-- how many parenthesised arguments are open at the deepest point of a printed pattern: every
+group body, date format / zone argument and MDC key / default is one `(`…`)` (the code counts
+exactly these: `Parser::depth`) -/
+def depthPat : Pat → Nat
+  | .lit _ => 0
+  | .leaf _ _ _ => 0
+  | .date _ none _ => 0
+  | .date _ (some _) _ => 1
+  | .mdc _ _ _ _ => 1
+  | .group _ _ body _ => depthPats body + 1
+def depthPats : List Pat → Nat
+  | [] => 0
+  | p :: ps => max (depthPat p) (depthPats ps)
+end
+
+/-- the top-level elements in front of the first one that is nested deeper than the code's limit:
+what still renders when a pattern goes too deep (`C09_depth_limit`) -/
+def okPrefix (P : Profile) (ps : List Pat) : List Pat :=
+  ps.takeWhile (fun p => decide (depthPat p ≤ P.maxDepth))
+
 /-- well-formed pattern (top level) for a profile's word size: special characters escaped; inside a
 parenthesised argument too `)` may be written `\\)` or `))` (since the repair of F6a); MDC key
 and default non-empty literal text (escaped specials allowed since the repair of F6b); every
 formatter and alias, `thread_id` included (since the repair of F5); widths fit the word and
-`min_width ≤ max_width`. -/
-def WF (P : Profile) (ps : List Pat) : Prop := wfPats P.wordBits false ps = true
+`min_width ≤ max_width` (an MDC key or default may be empty since the repair of
+`C09/mdc-empty-argument`); and parenthesised arguments are nested at most `Profile.maxDepth` (= the
+code's `MAX_DEPTH`, 64) deep — the code rejects deeper patterns (C11; `C09_depth_limit`). -/
+def WF (P : Profile) (ps : List Pat) : Prop :=
+  wfPats P.wordBits false ps = true ∧ depthPats ps ≤ P.maxDepth
 
 instance (P : Profile) (ps : List Pat) : Decidable (WF P ps) := by unfold WF; infer_instance
+
+/-- the decidable clause as a Boolean (drivers) -/
+def wfB (P : Profile) (ps : List Pat) : Bool :=
+  wfPats P.wordBits false ps && decide (depthPats ps ≤ P.maxDepth)
 
 /-! ### direct translation into chunks -/
 
